@@ -43,6 +43,7 @@ def BOUNDS(tier):
 def families(tier):
     q = tier == "quick"
     return [
+        ("twins", lambda: _twins(tier), 1),
         ("M", lambda: enum2d.M(6 if q else 7), 1),
         ("D", lambda: enum2d.D(2 if q else 3), 1),
         # K mutually crossing stems: the only family that reaches bracket levels beyond '{' (every level up to the 12th / 16th)
@@ -54,6 +55,20 @@ def families(tier):
         ("D-derivations", lambda: ({**c, "depth": 2, "ops": ["without_isolated", "without_pseudoknots", "dot_bracket", "elements"] if not q else ["without_isolated", "without_pseudoknots", "dot_bracket"]}
                                    for c in enum2d.D(4, kmin=3, gapvals=(0,) if q else (0, 1))), 1),  # thorough: both gap values and 'elements'; depth 3 there cost most of an hour
     ]
+
+
+def _twins(tier):
+    """Two independent objects with the same pairing in one process - other letters / one more unpaired nucleotide - with the calls on them interleaved:
+    anything remembered process-wide about a pairing must not leak from one object into the answers of the other."""
+    q = tier == "quick"
+    ops = ["dot_bracket", "fcfs", "all_dot_brackets", "without_pseudoknots", "without_isolated", "elements", "str"]
+    for c in list(enum2d.M(6 if q else 7, nmin=4)) + list(enum2d.D(2 if q else 3)):
+        stems = ref2d.stems_of(c["pairs"])
+        g = ref2d.stem_graph(stems)
+        if not any(g[v] for v in g):
+            continue
+        for kind in ("letters", "longer"):
+            yield {**c, "twin": kind, "depth": 2 if q else 3, "ops": ops}
 
 
 def fresh(n, seq, pairs):
@@ -123,9 +138,10 @@ def _vdigest(v, ids):
 
 
 def run_case(case):
-    n = case["n"]
-    seq = seq_of(case)
-    root_ref = tuple(sorted(tuple(p) for p in case["pairs"]))
+    n0 = case["n"]
+    seq0 = seq_of(case)
+    root_pairs = tuple(sorted(tuple(p) for p in case["pairs"]))
+    root_ref = (n0, seq0, root_pairs)
     depth_max = case.get("depth") or (4 if _tier[0] == "quick" else 8)
     ops_here = case.get("ops") or OPS
     out = []
@@ -141,32 +157,38 @@ def run_case(case):
     exp_cache = {}
 
     def expected(op, ref):
+        # a reference is (length, sequence, pairs): a derived object keeps the length and sequence of its receiver
         key = (op, ref)
+        n, seq, prs = ref
         if key not in exp_cache:
             if op == "without_isolated":
                 keep = set()
-                for i, j, L in ref2d.stems_of(ref):
+                for i, j, L in ref2d.stems_of(prs):
                     if L >= 2:
                         keep.update((i + t, j - t) for t in range(L))
-                exp_cache[key] = tuple(sorted(keep))
+                exp_cache[key] = (n, seq, tuple(sorted(keep)))
             elif op == "without_pseudoknots":
-                r = observe(lambda: fresh(n, seq, ref).dot_bracket)
+                r = observe(lambda: fresh(n, seq, prs).dot_bracket)
                 if r[0] == "exc":
                     exp_cache[key] = None
                 else:
                     dec, _ = ref2d.decode(r[1].structure)
-                    exp_cache[key] = tuple(sorted(p for p, lev in dec.items() if lev == 0))
+                    if set(dec) != set(prs):
+                        # the notation is not an encoding of the pairs (reported where it is asked for): no reference for the derivation
+                        exp_cache[key] = None
+                    else:
+                        exp_cache[key] = (n, seq, tuple(sorted(p for p, lev in dec.items() if lev == 0)))
             else:
-                r = observe(lambda: answer(op, fresh(n, seq, ref), n, seq, ref))
+                r = observe(lambda: answer(op, fresh(n, seq, prs), n, seq, prs))
                 exp_cache[key] = r
         return exp_cache[key]
 
     def text_of(ref):
-        return enum2d.bpseq_text(dict(n=n, pairs=[list(p) for p in ref], seq=seq))
+        return enum2d.bpseq_text(dict(n=ref[0], pairs=[list(p) for p in ref[2]], seq=ref[1]))
 
     def pairs_of(ref):
         d = {}
-        for i, j in ref:
+        for i, j in ref[2]:
             d[i] = j
             d[j] = i
         return d
@@ -178,8 +200,13 @@ def run_case(case):
             elif obj.pairs != pairs_of(ref):
                 add("mutated:pairs:%s" % _last_deriv(hist), "pairs of object %d changed" % k, sorted(obj.pairs.items()), sorted(pairs_of(ref).items()), hist)
 
-    g0 = [fresh(n, seq, root_ref)]
+    g0 = [fresh(*root_ref)]
     refs0 = [root_ref]
+    if case.get("twin"):
+        # a second, independent object in the same process: the same pairing under other letters, and under one more (unpaired) nucleotide
+        tw = (n0, seq_of(case, 1), root_pairs) if case["twin"] == "letters" else (n0 + 1, seq_of(dict(n=n0 + 1), 2), root_pairs)
+        g0.append(fresh(*tw))
+        refs0.append(tw)
     seen = {canon(g0)}
     frontier = collections.deque([(g0, refs0, [])])
     states = 1
@@ -208,12 +235,13 @@ def run_case(case):
                         res = r[1]
                         if str(res) != text_of(eref) or res.pairs != pairs_of(eref):
                             add("%s:wrong-result" % op, "%s returned other pairs than the reference" % op, str(res), text_of(eref), h2)
-                        elif not any(res is o for o in g2) and len(g2) < MAXOBJ:
+                        elif not any(res is o for o in g2) and len(g2) < MAXOBJ + (1 if case.get("twin") else 0):
                             g2 = g2 + [res]
                             refs2 = refs + [eref]
                         answers.add((op, eref))
                 else:
-                    r = observe(answer, op, obj, n, seq, ref)
+                    n, seq = ref[0], ref[1]
+                    r = observe(answer, op, obj, n, seq, ref[2])
                     e = expected(op, ref)
                     if r[0] == "exc":
                         if e[0] != "exc":
@@ -223,9 +251,9 @@ def run_case(case):
                     elif r[0] == "ok" and op in ("fcfs", "dot_bracket", "all_dot_brackets"):
                         # a fresh copy made in the same process would share any process-wide state: the answer must also be right in itself
                         for sq, st in ([r[1]] if op != "all_dot_brackets" else r[1]):
-                            probs = ref2d.check_encoding(n, seq, [list(p) for p in ref], sq, st)
+                            probs = ref2d.check_encoding(n, seq, [list(p) for p in ref[2]], sq, st)
                             if probs:
-                                add("answer-wrong-in-itself:%s" % op, "%s of an object with pairs %s is not an encoding of it: %s" % (op, list(ref), "; ".join(probs)[:200]), [sq, st], None, h2)
+                                add("answer-wrong-in-itself:%s" % op, "%s of an object with sequence %s and pairs %s is not an encoding of it: %s" % (op, seq, list(ref[2]), "; ".join(probs)[:200]), [sq, st], None, h2)
                                 break
                     answers.add((op, repr(r[1:])[:200]))
                 nbefore = len(out)
@@ -238,7 +266,7 @@ def run_case(case):
                     states += 1
                     maxdepth = max(maxdepth, len(h2))
                     frontier.append((g2, refs2, h2))
-    stems = ref2d.stems_of(root_ref)
+    stems = ref2d.stems_of(root_pairs)
     graph = ref2d.stem_graph(stems)
     nontrivial = any(L == 1 for _, _, L in stems) or any(graph[v] for v in graph)
     return dict(nontrivial=nontrivial, outcome="states=%d depth=%d" % (min(states, 999) // 50 * 50, maxdepth), violations=out,
